@@ -27,6 +27,9 @@ type c14Session struct {
 	written []message.RpcMessage
 	closed  bool
 	attrs   map[interface{}]interface{}
+	// the coordinator answers this request so fast that the reply is processed
+	// before WritePkg returns to the sender
+	instant func(m message.RpcMessage)
 }
 
 func (s *c14Session) IsClosed() bool     { return s.closed }
@@ -40,8 +43,14 @@ func (s *c14Session) SetAttribute(k, v interface{}) { s.attrs[k] = v }
 func (s *c14Session) WritePkg(pkg interface{}, timeout time.Duration) (int, int, error) {
 	s.mu.Lock()
 	defer s.mu.Unlock()
-	if m, ok := pkg.(message.RpcMessage); ok {
+	m, ok := pkg.(message.RpcMessage)
+	if ok {
 		s.written = append(s.written, m)
+	}
+	if ok && s.instant != nil {
+		s.mu.Unlock()
+		s.instant(m)
+		s.mu.Lock()
 	}
 	return 0, 0, nil
 }
@@ -200,6 +209,20 @@ func VerifC14Futures() {
 	tags := []string{"t0", "t1", "t2"}
 	for k := 0; k < n; k++ {
 		w.callers = append(w.callers, &c14Caller{tag: tags[k]})
+	}
+	// one caller may be answered before its write returns
+	fast := vrt.Choice("instant.reply.to", n+1) // n: nobody
+	w.s.instant = func(m message.RpcMessage) {
+		if b, ok := m.Body.(message.GlobalBeginRequest); ok && fast < n && b.TransactionName == tags[fast] && !w.callers[fast].answered {
+			vrt.Reach("c14/instant-reply")
+			w.callers[fast].answered, w.callers[fast].by = true, tags[fast]
+			w.started++
+			go func() {
+				sgetty.GetGettyClientHandlerInstance().OnMessage(w.s, c14Reply(m.ID, tags[fast]))
+				w.finished++
+			}()
+			vrt.Settle()
+		}
 	}
 	for k := 0; k < n; k++ {
 		w.call(k)
